@@ -1,6 +1,7 @@
 (* C18 — adaptive discretisation tiles the domain; VOGP_AD declares only finest leaves. *)
 From Coq Require Import QArith List Bool.
-From VOPy Require Import Adaptive AdaptiveProofs.
+From VOPy Require Import Spec Adaptive AdaptiveProofs AdaptiveRefine.
+From VOPyGen Require Import Gen_algos Gen_adaptive.
 Import ListNotations.
 Open Scope Q_scope.
 
@@ -68,3 +69,36 @@ Theorem C18_sets_disjoint_and_valid : forall dim maxd st, reach_nodup dim maxd s
   length (a_depths st) = length (a_cells st).
 Proof. exact sets_disjoint_nodup_ops. Qed.
 Print Assumptions C18_sets_disjoint_and_valid.
+
+(* VOGP_AD's epsilon-covering REGENERATED from vopy/algorithms/vogp_ad.py (depth gate, latch, covering loop nest) is the
+   Cover step of the bookkeeping machine the theorems above are about; so is the set bookkeeping of evaluate_refine *)
+Theorem C18_regenerated_covering_is_the_gated_cover_step : forall E st, (forall x, In x (aS st) -> ~ In x (aP st)) ->
+  let sel := vogp_ad_epsiloncovering_body_sel E (aS st) (aP st) [] in
+  let st' := adstep st (Cover sel) in
+  vogp_ad_epsiloncovering E (depth_of st) (a_max st) (a_latch st) (aS st) (aP st) []
+  = (a_latch st', (aS st', aP st', [])).
+Proof. exact vogp_ad_cover_refines. Qed.
+Print Assumptions C18_regenerated_covering_is_the_gated_cover_step.
+
+Theorem C18_regenerated_gate_is_latch_or_all_at_max_depth : forall st,
+  vogp_ad_gate (depth_of st) (a_max st) (a_latch st) (aS st) = (a_latch st || all_at_max st)%bool.
+Proof. exact vogp_ad_gate_is_model. Qed.
+Print Assumptions C18_regenerated_gate_is_latch_or_all_at_max_depth.
+
+Theorem C18_regenerated_refinement_bookkeeping : forall st i,
+  (memn i (aS st) || memn i (aP st))%bool = true -> Nat.ltb (depth_of st i) (a_max st) = true ->
+  (forall x, In x (aS st) -> (x < length (a_cells st))%nat) -> (forall x, In x (aP st) -> (x < length (a_cells st))%nat) ->
+  let ch := children (nth i (a_cells st) []) in
+  let ids := seq (length (a_cells st)) (length ch) in
+  let st' := adstep st (Refine i) in
+  vogp_ad_refine_sets i ids (aS st) (aP st) = (aS st', aP st').
+Proof. exact vogp_ad_refine_refines. Qed.
+Print Assumptions C18_regenerated_refinement_bookkeeping.
+
+(* generate_child_designs REGENERATED from vopy/design_space.py: the child cells are the model's children (so they tile
+   the parent, halve its sides, ...), the child's design point is the centre of its cell, depth + 1, parent's region *)
+Theorem C18_regenerated_children_are_the_model_children : forall c b,
+  gen_child_cells c = children c /\ gen_child_point b = centre b /\
+  (forall d, gen_child_depth d = S d) /\ gen_child_inherits_parent_region = true.
+Proof. intros c b. split; [exact (gen_child_cells_is_children c)|split; [exact (gen_child_point_is_centre b)|split; [intros; reflexivity|reflexivity]]]. Qed.
+Print Assumptions C18_regenerated_children_are_the_model_children.
